@@ -13,7 +13,7 @@ import (
 // answer like the reference interpreter on the rule lists as written. The
 // build/select helpers are the C07 monitor's (linked into this build).
 func verifC04DnsPipelines(m *vk.Monitor, r *rand.Rand) {
-	gen := &vk.DGen{R: r, Internal: true}
+	gen := &vk.DGen{R: r, Internal: true, LongReq: 8}
 	nprog := vk.Scale(500, 15000)
 	nq := vk.Scale(30, 50)
 	for i := 0; i < nprog && m.Violations() < 5; i++ {
